@@ -48,24 +48,33 @@ def run(ctx):
   ctx.assumptions += ['feature values/dtypes are compared by the driver projection (ids decoded from the real arrays); '
                       'TLC decides structure: ids, masks, sizes, order']
   big = ctx.thorough
-  consts = dict(MaxN=24 if big else 14, MaxBS=12 if big else 8, MaxK=6 if big else 4, StrictFull=True, HalveFloor=True)
+  consts = dict(MaxN=24 if big else 14, MaxBS=12 if big else 8, MaxK=6 if big else 4, StrictFull=True, HalveFloor=True, ShortOnly=False)
   r = ctx.model_check('SeqBatch', name='SeqBatch_M', constants=consts, invariants=INVS + ['Emit'], workers=1)
   for tog, inv in (('StrictFull', 'PartitionInOrder'), ('HalveFloor', 'FinalSizeRule')):
-    c = dict(MaxN=12, MaxBS=7, MaxK=4, StrictFull=True, HalveFloor=True)
+    c = dict(MaxN=12, MaxBS=7, MaxK=4, StrictFull=True, HalveFloor=True, ShortOnly=False)
     c[tog] = False
     ctx.model_check('SeqBatch', expect=inv, name=f'SeqBatch_ctl_{tog}', constants=c, invariants=INVS, coverage=False)
   ctx.require_actions(['Pick', 'BucketStep', 'BucketDone', 'Slice', 'Done'])
 
   # ---- leg R: replay every emitted behaviour into the real code
+  # the bucket rule on its own, for batch sizes up to 33 (48) and up to 7 buckets: datasets smaller than the batch size
+  r2 = ctx.model_check('SeqBatch', name='SeqBatch_M_short', constants=dict(consts, MaxN=32 if not big else 47, MaxBS=33 if not big else 48, MaxK=7, ShortOnly=True),
+                       invariants=INVS + ['Emit'], workers=1)
   cases = r.json
   if not cases:
     raise Machinery('generator emitted no behaviour')
+  short = r2.json
+  for c in short:
+    c['short'] = True
+  cases = cases + short
   nchains = len(bat.CHAINS)
   replayed = 0
   for ci, c in enumerate(cases):
     combos = [(bat.FEATURE_SETS[ci % 2], ci % nchains), (bat.FEATURE_SETS[(ci + 1) % 2], (ci // 2 + 3) % nchains)]
     if big:
       combos = [(v, ch) for v in bat.FEATURE_SETS for ch in bat.CHAINS]
+    if c.get('short'):
+      combos = combos[:1]
     for variant, chain in combos:
       got, same, unchanged = real_run(fedjax, c['n'], c['bs'], c['k'], c['mode'], c['drop'], variant, chain)
       exp = [(list(b['ids']), list(b['mask'])) for b in c['out']]
@@ -109,7 +118,7 @@ def run(ctx):
     trs.append({'n': n, 'bs': bs, 'k': k, 'mode': mode, 'drop': drop, 'meta': {'features': variant, 'chain': chain},
                 'events': to_events(got, same, unchanged)})
     ctx.case(key=(n, bs, k, mode, drop), nontrivial=n > 0 and (n % bs != 0 or n >= 2 * bs))
-  consts_t = dict(MaxN=0, MaxBS=1, MaxK=1, StrictFull=True, HalveFloor=True)
+  consts_t = dict(MaxN=0, MaxBS=1, MaxK=1, StrictFull=True, HalveFloor=True, ShortOnly=False)
   verdicts, _ = vtraces.validate_batch(ctx, 'SeqBatchTrace', trs, consts_t, 'T')
   for t, v in zip(trs, verdicts):
     if v.ok:
